@@ -105,7 +105,9 @@ def run_case(case, ctx):
                     col[i] = None if rng.rand() < miss else pools[c][rng.randint(len(pools[c]))]
                 data[c] = col
             else:
-                data[c] = rng.randn(n).round(3) if rng.rand() < 0.7 else rng.randint(-5, 5, n)
+                r = rng.rand()
+                data[c] = (rng.randn(n).round(3) if r < 0.6 else rng.randint(-5, 5, n) if r < 0.8
+                           else (rng.rand(n) < 0.5) if r < 0.9 else rng.randn(n).astype(numpy.float32))
         df = pandas.DataFrame({names[j]: data[names[j]] for j in order})
         for c in cat_cols_all:
             df[c] = df[c].astype(object)
@@ -119,13 +121,15 @@ def run_case(case, ctx):
     train = draw(nrow + 3, pools, miss=0.1)
     # every pool value appears at least once? not required: categories are what fit saw
     test = draw(nrow, pools)
-    ikind = ["range", "shuffled", "offset", "strings"][case["sub"] % 4]
+    ikind = ["range", "shuffled", "offset", "strings", "duplicated"][case["sub"] % 5]
     if ikind == "shuffled":
         test.index = rng.permutation(len(test))
     elif ikind == "offset":
         test.index = numpy.arange(100, 100 + len(test))
     elif ikind == "strings":
         test.index = ["r%d" % i for i in rng.permutation(len(test))]
+    elif ikind == "duplicated":
+        test.index = [7] * len(test)      # a non-unique index: rows are still rows
     single = bool(rng.rand() < 0.3)
     explicit = bool(rng.rand() < 0.5) or intcat
     cat_cols = cat_cols_all if not explicit else [c for c in cat_cols_all if rng.rand() < 0.8] or cat_cols_all[:1]
